@@ -31,6 +31,12 @@ func toByteSortable[T Invertable](v T) ([]byte, error) {
 		/* Floats are bit more tricky to convert to a sortable byte array but follow a similar principle:
 		 * https://stackoverflow.com/questions/54557158/byte-ordering-of-floats
 		 */
+		if v == 0 {
+			// Normalise negative zero, -0.0 == 0.0 so they must share a key.
+			// Otherwise -0.0 is encoded as all zeros which sorts below -Inf
+			// and decodes as NaN.
+			v = 0
+		}
 		bits := math.Float64bits(v)
 		if v >= 0 {
 			bits ^= 0x8000000000000000 // math.MinInt64
